@@ -1,11 +1,11 @@
 SPECIFICATION MSpec
 CONSTANTS
   Acc = {"a", "b", "c"}
-  Members = {"a", "b", "c"}
-  MaxJoins = 0
+  Members = {"a", "b"}
+  MaxJoins = 1
   MaxMsgs = 2
-  MaxFaults = 1
-  MaxOpen = 0
+  MaxFaults = 0
+  MaxOpen = 1
   MaxRetries = 1
   ServerAcks = FALSE
   MaxReorder = 1
